@@ -11,7 +11,7 @@ PROPERTY = "C09"
 LEVEL = "exploration"
 NEED = ("h4x",)
 RULE = ("images with dims 1..12, 1..5 components, all number types, created with each of the three interlaces; "
-        "optional FillValue attribute before the first write; histories of GRwriteimage rectangles/strides inside "
+        "optional FillValue attribute before the first write (an image with a fill value may be read before anything was written); histories of GRwriteimage rectangles/strides inside "
         "the image (buffers in the creation interlace), GRreqimageil x GRreadimage rectangles/strides (buffers in "
         "the requested interlace: 3x3 combinations), 256x3 palettes via GRwritelut/GRreqlutil/GRreadlut, "
         "GRsetcompress(RLE|skphuff|deflate) with whole-image writes, old-style RLE rasters written by DFR8 (up to 300 pixels wide, runs of 1..260 equal pixels) rewritten and read through GR, GRsetchunk (+coder, cache) with region writes and whole-chunk GRwritechunk/GRreadchunk (round trip per "
@@ -235,8 +235,10 @@ def run_case(case):
                     labels.add("interlace_nd")
             elif k == "read":
                 _, s, sd, cn, ril = op
+                if not written and (case["fill"] is None or storage != "plain"):
+                    continue     # an image without data and without a fill value: content not defined
                 if not written:
-                    continue     # reading an image that has no data yet is not defined by the interface
+                    labels.add("read_before_any_write")
                 cx, cy = cn
                 strd = sd or [1, 1]
                 if storage == "comp" and dirty:
@@ -251,6 +253,8 @@ def run_case(case):
                 xs = slice(s[0], s[0] + (cx - 1) * strd[0] + 1, strd[0])
                 ev = val[ys, xs, :].copy()
                 es = stt[ys, xs, :].copy()
+                if not written:
+                    es[:] = 2        # no data yet: the image reads as its fill value
                 for c in range(C):
                     ev[..., c][es[..., c] == 2] = fillv[c]
                 checks.append((ln, "read", (ev, es, cy, cx, ril, "GRreadimage %s/%s/%s il=%d" % (s, sd, cn, ril))))
